@@ -77,7 +77,8 @@ def rs_block_yaml(spec, explicit=False):
         elif explicit:
             e["source"] = None
         blocks.append(e)
-    out["blocks"] = blocks
+    if blocks or w.get("blocks", True):
+        out["blocks"] = blocks        # (a block-less run space may be written without the `blocks:` member at all)
     return out
 
 
@@ -1349,6 +1350,15 @@ def _run(ck, rng, thorough, facts, root):
     cases.append(("min_a", copy.deepcopy(MIN_A), True))
     cases.append(("min_b", copy.deepcopy(MIN_B), True))
     cases.append(("min_a2", dict(copy.deepcopy(MIN_A), rs_under_pipeline=True, launch=("explicit", "L-min-a2")), False))
+    # a DECLARED run space without blocks (`run_space: {blocks: []}`, `run_space: {max_runs: 25}`): a launch of one run with an
+    # empty run context -- bracketed, linked and inspected like any other launch
+    for bi, written in enumerate(({"combine": False, "max_runs": False, "dry_run": False, "blocks": True}, {"combine": False, "max_runs": True, "dry_run": False, "blocks": False})):
+        c = {"nodes": [{"k": "src", "cfg": {"value": 2}}, {"k": "mul", "cfg": {"factor": 3}},
+                       {"k": "template", "segs": [["lit", "out_"], ["hole", "extra"], ["lit", ".txt"]], "out": "path"}, {"k": "sink"}],
+             "spec": {"combine": CB, "max_runs": 25 if written["max_runs"] else 1000, "blocks": [], "written": written},
+             "tkeys": ["extra"], "cli_ctx": [["extra", 5]], "trace": "dir" if bi else "file", "launch": ("explicit", "L-blockless-%d" % bi) if bi else ("generated",),
+             "attempt": None, "rs_under_pipeline": False, "trace_in_yaml": None, "fail_at": None, "src_key": None}
+        cases.append(("blockless%d" % bi, c, True))
     n_gen = 60 if thorough else 5
     for i in range(n_gen):
         cases.append(("gen%d" % i, gen_case(rng), True))
